@@ -56,9 +56,10 @@ def run_property(prop, tier, jobs, C, extra=None):
     if not tasks:
         print(f'checker error: no function under contract serves {prop}')
         return 3
-    outs = M.run_tasks(tasks, M.TIMEOUT_MS[tier], jobs)
     findings = load_json(os.path.join(HERE, 'known_findings.json'), {'findings': []})['findings']
     baseline = load_json(os.path.join(HERE, 'baseline_obligations.json'), {}).get(prop, None)
+    M._BASELINE_NAMES = set(baseline['discharged']) if baseline else set()
+    outs = M.run_tasks(tasks, M.TIMEOUT_MS[tier], jobs)
 
     errors = [o for o in outs if o['error']]
     results = []
@@ -90,8 +91,23 @@ def run_property(prop, tier, jobs, C, extra=None):
     # ---- classify refutations -------------------------------------------------------------------
     violations = []
     known_hits = []
-    undecided = list(unknown)
     baseline_names = set(baseline['discharged']) if baseline else None
+    undecided = []
+    for r in unknown:
+        # an obligation discharged on the committed baseline that the solver can no longer discharge even
+        # with the extended budget is a failed obligation: reported, with the solver's output, as a
+        # violation without failing input (DESIGN.md section 4); anything else stays undecided
+        if baseline_names is not None and r['name'] in baseline_names and 'extended retry' in (r.get('reason') or ''):
+            f = match_finding(findings, prop, r)
+            if f is not None:
+                known_hits.append((f, r))
+                continue
+            verdict = {'confirmed': False, 'solver': 'no proof and no counter-model within the extended budget: '
+                       + (r.get('reason') or ''), 'tried': 0}
+            path = write_replay_file(prop, r, verdict)
+            violations.append((r, path, ' no-failing-input-found'))
+        else:
+            undecided.append(r)
     for r in refuted:
         f = match_finding(findings, prop, r)
         if f is not None:
@@ -116,12 +132,15 @@ def run_property(prop, tier, jobs, C, extra=None):
         checker_errors.append('no normal path reachable under the contract (vacuous): ' + ', '.join(vacuous))
     if not results:
         checker_errors.append('zero obligations generated')
-    names_now = set(r['name'] for r in results)
+    # vacuity guard at function granularity: every function that contributed discharged obligations to
+    # the committed baseline must still contribute some (obligation names carry call ordinals, which a
+    # harmless edit may shift, so single names are not compared)
+    funcs_now = set(r['name'].split('/', 1)[0] for r in results)
     if baseline_names is not None:
-        missing = sorted(baseline_names - names_now)
+        missing = sorted(set(n.split('/', 1)[0] for n in baseline_names) - funcs_now)
         if missing and not errors:
-            checker_errors.append('obligations of the committed baseline disappeared (contract out of date?): '
-                                  + ', '.join(missing[:8]))
+            checker_errors.append('functions of the committed baseline no longer yield obligations '
+                                  '(contract out of date?): ' + ', '.join(missing[:8]))
 
     # ---- output -------------------------------------------------------------------------------------
     seen_f = set()
@@ -129,7 +148,11 @@ def run_property(prop, tier, jobs, C, extra=None):
         if f['id'] not in seen_f:
             seen_f.add(f['id'])
             print(f"KNOWN-FINDING: property={prop} {f['id']} {f['what']}")
+    printed = set()
     for r, path, suffix in violations:
+        if path in printed:
+            continue
+        printed.add(path)
         print(f"VIOLATION property={prop} replay={path}{suffix}")
         print(f"  obligation {r['name']} refuted on path {trail_sig(r['trail'])[:200]}")
     for r in undecided:
@@ -196,10 +219,12 @@ def run_property(prop, tier, jobs, C, extra=None):
     print(f"{prop} [{tier}]: functions={len(funcs)} obligations={len(results)} discharged={len(discharged)} "
           f"refuted={len(refuted)} (known={n_known}) undecided={len(undecided)} errors={len(checker_errors)} "
           f"wall={wall:.1f}s")
-    if checker_errors:
-        return 3
+    # a violation (replayed on the real code, or a baseline-discharged obligation now refuted) is a verdict
+    # even if some other function could not be checked
     if violations:
         return 1
+    if checker_errors:
+        return 3
     if undecided:
         return 2
     return 0
